@@ -3,7 +3,8 @@
    set s; [wf] = what the GTID parser produces (distinct uuids/tags, non-empty
    normalized interval slices); subset/same are the set-theoretic relations. *)
 From Coq Require Import ZArith NArith Bool List.
-From Mysync Require Import Gtid.Interval Gtid.GtidSet Proofs.IntervalProofs Proofs.GtidProofs Proofs.GtidEqual.
+From Coq Require Import Permutation.
+From Mysync Require Import Gtid.Interval Gtid.GtidSet Proofs.IntervalProofs Proofs.GtidProofs Proofs.GtidEqual Proofs.RecentOrder.
 Import ListNotations.
 Open Scope Z_scope.
 
@@ -88,3 +89,15 @@ Proof. split; [apply wfb_sound; vm_compute; reflexivity|vm_compute; reflexivity]
 Theorem C13_equal_iff_same_transactions : forall s o, wf s -> wf o -> (set_equal s o = true <-> same s o).
 Proof. exact set_equal_iff. Qed.
 Print Assumptions C13_equal_iff_same_transactions.
+
+(* the positions come from ranging over a Go map, in arbitrary order: the split-brain verdict does not depend on the
+   order, and the sets returned for two orders hold the same transactions *)
+Theorem C13_split_brain_verdict_is_order_independent : forall ps qs, Permutation ps qs -> all_wf ps ->
+  (most_recent ps = RecentSplitBrain <-> most_recent qs = RecentSplitBrain).
+Proof. exact most_recent_splitbrain_order_independent. Qed.
+Print Assumptions C13_split_brain_verdict_is_order_independent.
+
+Theorem C13_most_recent_set_is_order_independent : forall ps qs h st h' st', Permutation ps qs -> all_wf ps ->
+  most_recent ps = RecentFound h st -> most_recent qs = RecentFound h' st' -> same st st'.
+Proof. exact most_recent_found_order_independent. Qed.
+Print Assumptions C13_most_recent_set_is_order_independent.
